@@ -603,10 +603,10 @@ func main() {
 
 	invariants := "TypeOK CleanupOnce HandlerFirstMatch NoneLost EscapeIntact FinalOK RejectedNeverRuns + deadlock"
 	genCfg, simCfg := "gen_quick.cfg", "sim3.cfg"
-	simTraces, simDepth := 1600, 400
+	simTraces, simDepth := 1200, 400
 	if env.Thorough() {
 		genCfg, simCfg = "gen_thorough.cfg", "sim4.cfg"
-		simTraces = 24000
+		simTraces = 8000
 	}
 	const simWorkers = 4 // fixed so that the sample depends on VERIF_SEED only
 	tlcInfo := map[string]interface{}{}
